@@ -129,8 +129,44 @@ pub fn c07(data: &[u8]) -> Check {
 /// C17 from the text side: whatever parses to a trace inside the statement's domain must survive print -> parse ->
 /// print unchanged (the fuzzer explores the parser's image; the domain predicate is the one of the proptest stage).
 pub fn c17(data: &[u8]) -> Check {
-    let text = String::from_utf8_lossy(data).to_string();
     let mut st = Stats::new();
+    // (a) structure-aware: fields separated by 0x00 (0x01 starts a cause level) are decoded straight into a trace —
+    // not through the parser, whose normalisations would hide themselves — and go through the print -> parse round trip
+    if data.contains(&0) {
+        let mut levels: Vec<crate::api::TraceAst> = Vec::new();
+        for level in data.split(|b| *b == 1).take(6) {
+            let f: Vec<String> = level.split(|b| *b == 0).map(|x| String::from_utf8_lossy(x).to_string()).collect();
+            let exception = match f.first() {
+                Some(c) if !c.is_empty() => Some(crate::api::ThrowableAst { class: c.clone(), message: f.get(1).filter(|m| !m.is_empty()).cloned() }),
+                _ => None,
+            };
+            let frames: Vec<crate::api::FrameAst> = f
+                .get(2..)
+                .unwrap_or(&[])
+                .chunks(4)
+                .filter(|c| c.len() == 4)
+                .take(12)
+                .map(|c| crate::api::FrameAst { class: c[0].clone(), method: c[1].clone(), file: Some(c[2].clone()), line: c[3].bytes().fold(0u64, |a, b| a.wrapping_mul(31).wrapping_add(b as u64)) % 100_000, params: None })
+                .collect();
+            levels.push(crate::api::TraceAst { exception, frames, cause: None });
+        }
+        let mut t: Option<crate::api::TraceAst> = None;
+        for mut l in levels.into_iter().rev() {
+            l.cause = t.take().map(Box::new);
+            t = Some(l);
+        }
+        if let Some(t) = t {
+            c17::check_trace(&t, &mut st)?;
+            for f in &t.frames {
+                if c17::frame_in_domain(f) {
+                    c17::check_frame(f, &mut st)?;
+                }
+            }
+        }
+        return Ok(());
+    }
+    // (b) from the text side
+    let text = String::from_utf8_lossy(data).to_string();
     let parsed = crate::engine::guarded(|| proguard::StackTrace::try_parse(text.as_bytes()).map(|t| crate::api::proguard::from_trace(&t))).map_err(|p| Fail::new("parse-panic", p))?;
     if let Some(t) = parsed {
         c17::check_trace(&t, &mut st)?;
